@@ -182,3 +182,17 @@ def c04_rule_changes_static_precision(site, w):
     if not (site.startswith("step:float:") and site.endswith(":type-change")):
         return False
     return bool(w.get("before_type")) and bool(w.get("after_type")) and w["before_type"] != w["after_type"]
+
+
+def c05_cpp_integer_literal_division(site, w):
+    """C++ target, graph printed without the algebraic rewrite pass: integer-valued Python constants 'like' a double operand are printed as int
+    literals, so a division whose two operands are such literals (possibly through a ternary) is an integer division: (1) / (2) == 0"""
+    import re
+
+    if not site.startswith("cpp:value-differs"):
+        return False
+    src = w.get("source", "")
+    if "norewrite" not in w.get("program", ""):
+        return False
+    # numerator: an int literal or a ternary of int literals, closed by parentheses; denominator: an int literal
+    return re.search(r"\(\d+\)\)*\s*/\s*\(\d+\)", src) is not None
